@@ -294,8 +294,47 @@ var genFindings = []genFinding{
 		diag: regexp.MustCompile(`not gofmt-stable|build constraint|gofmt`)},
 }
 
+// collidingDefRefs finds a definition that (directly) contains a reference to another definition whose name maps to
+// the same Go identifier: the inner one is named while the outer declaration is still in progress.
+func collidingDefRefs(root *sg.Schema) [][2]string {
+	var out [][2]string
+	for _, d := range root.Defs {
+		for _, e := range root.Defs {
+			if d.Name == e.Name || identKey(d.Name) != identKey(e.Name) {
+				continue
+			}
+			refs := false
+			d.S.Walk(func(x *sg.Schema) { refs = refs || (x.Ref != "" && x.Target == e.S) })
+			if refs {
+				out = append(out, [2]string{d.Name, e.Name})
+			}
+		}
+	}
+	return out
+}
+
 func init() {
 	genFindings = append(genFindings,
+		genFinding{sig: "nested-collision-duplicate-type",
+			trigger: func(root *sg.Schema, _ []string) bool { return len(collidingDefRefs(root)) > 0 },
+			neutralise: func(root *sg.Schema) {
+				for _, pr := range collidingDefRefs(root) {
+					for i := range root.Defs {
+						if root.Defs[i].Name == pr[1] {
+							nn := pr[1] + "Renamed"
+							root.Walk(func(x *sg.Schema) {
+								for _, pre := range []string{"#/$defs/", "#/definitions/"} {
+									if x.Ref == pre+pr[1] {
+										x.Ref = pre + nn
+									}
+								}
+							})
+							root.Defs[i].Name = nn
+						}
+					}
+				}
+			},
+			diag: regexp.MustCompile(`redeclared in this block|other declaration of`)},
 		genFinding{sig: "anyof-ref-plain-def",
 			trigger: func(root *sg.Schema, _ []string) bool {
 				return anyNode(root, func(x *sg.Schema) bool {
@@ -548,6 +587,12 @@ func c01(ctx *Ctx) (*Outcome, error) {
 				Ext: jsonx.Obj{{K: "type", V: "time.Duration"}, {K: "imports", V: []any{"time"}}}}})
 		case 1:
 			root.Props = append(root.Props, sg.Prop{Name: "hz2", S: &sg.Schema{Types: []string{"integer"}, Min: sg.Fp(0), Max: sg.Fp(18446744073709551615)}})
+		case 3:
+			// recorded finding nested-collision-duplicate-type: a definition refers to another one of the same Go name
+			inner := &sg.Schema{Types: []string{"object"}, Props: []sg.Prop{{Name: "n", S: &sg.Schema{Types: []string{"integer"}}}}}
+			outer := &sg.Schema{Types: []string{"object"}, Props: []sg.Prop{{Name: "inner", S: &sg.Schema{Ref: "#/$defs/hz_coll", Target: inner}}}}
+			root.Defs = append(root.Defs, sg.Prop{Name: "hzColl", S: outer}, sg.Prop{Name: "hz_coll", S: inner})
+			root.Props = append(root.Props, sg.Prop{Name: "hz2", S: &sg.Schema{Ref: "#/$defs/hzColl", Target: outer}})
 		case 2:
 			d := &sg.Schema{Types: []string{"object"}, Props: []sg.Prop{{Name: "plain", S: &sg.Schema{Types: []string{"integer"}}}}}
 			root.Defs = append(root.Defs, sg.Prop{Name: "HzPlain", S: d})
